@@ -58,7 +58,10 @@ def side_chain_dihedrals(base):
     return [d for d in RES[base]["dihedrals"] if topo.heavy(d.split()[3])]
 
 
-def build_chain(seq, phis, psis, chis=None, omegas=None, hydrogens="none", oxt=True):
+ACID_BONDS = {"ASP": ("CG", "OD1", "OD2", ("HD1", "HD2")), "GLU": ("CD", "OE1", "OE2", ("HE1", "HE2"))}
+
+
+def build_chain(seq, phis, psis, chis=None, omegas=None, hydrogens="none", oxt=True, acid=None, hdrop=None):
     """Residues [{name, atoms{canonical name: xyz}}] in ideal template geometry."""
     n = len(seq)
     omegas = omegas or [180.0] * n
@@ -121,8 +124,25 @@ def build_chain(seq, phis, psis, chis=None, omegas=None, hydrogens="none", oxt=T
                 [_PEP["C-1"], _T["N"], _T["CA"]], [bb[i - 1][2], bb[i][0], bb[i][1]]
             )
             co["H"] = R2 @ _T["H"] + t2
+        # carboxyl groups with unequal C-O bond lengths (as in real structures): the oxygens (and a
+        # proton riding on them) slide along their bonds, all angles stay template angles
+        if acid and acid[i] and base in ACID_BONDS:
+            c, o1, o2, hs = ACID_BONDS[base]
+            for o, length in ((o1, acid[i][0]), (o2, acid[i][1])):
+                if o in co and c in co:
+                    u = (co[o] - co[c]) / measure(co[o], co[c])
+                    delta = co[c] + u * length - co[o]
+                    co[o] = co[o] + delta
+                    for h in hs:
+                        if h in co and h in tb.get(o, []):
+                            co[h] = co[h] + delta
         if hydrogens == "none":
             co = {k: v for k, v in co.items() if topo.heavy(k)}
+        elif hdrop:
+            hyd = [k for k in co if not topo.heavy(k)]
+            for ri, j in hdrop:
+                if ri % n == i and hyd:
+                    co.pop(hyd[j % len(hyd)], None)
         out.append(dict(name=rn, atoms=co, bonds=tb))
     return out
 
@@ -224,7 +244,7 @@ def materialise(desc) -> Structure:
         if res is None:
             res = build_chain(
                 seq, ch["phi"], ch["psi"], ch.get("chi"), ch.get("omega"),
-                hydrogens=ch.get("hyd", "none"), oxt=ch.get("oxt", True),
+                hydrogens=ch.get("hyd", "none"), oxt=ch.get("oxt", True), acid=ch.get("acid"), hdrop=ch.get("hdrop"),
             )  # fmt: skip
         R = quat_to_rot(ch.get("q", [1, 0, 0, 0]))
         allp = np.array([v for r in res for v in r["atoms"].values()])
@@ -302,7 +322,7 @@ def materialise(desc) -> Structure:
         if len(heavy) and np.min(np.linalg.norm(heavy - p, axis=1)) < 2.6:
             continue
         s.add(name="O", resn=w.get("resn", "HOH"), chain=w.get("chain", "W"),
-              seq=w.get("seq", 300), xyz=p, rec="HETATM", group=("water",))  # fmt: skip
+              seq=w.get("seq", 300), xyz=p, rec=w.get("rec", "HETATM"), group=("water",))  # fmt: skip
         heavy = np.vstack([heavy, np.round(p, 3)]) if len(heavy) else np.round(p, 3)[None]
     s.min_heavy_gap = min_nonbonded_gap(s)
     return s
